@@ -693,7 +693,14 @@ pub fn compile(
 
     let start_time = Instant::now();
 
-    let input_path = input_path.as_ref();
+    // `./x.ms` and `x.ms` are one file: `.` components are dropped (as they are from import paths), so that the
+    // labels inside the bytecode do not depend on which of the two the user typed
+    let input_path: PathBuf = input_path
+        .as_ref()
+        .components()
+        .filter(|component| !matches!(component, std::path::Component::CurDir))
+        .collect();
+    let input_path = input_path.as_path();
 
     let output_path = input_path.with_extension("mmm");
 
